@@ -9,9 +9,9 @@ TARGETS = {
 }
 
 
-def _run(prop, name, tier, ops, dev, cb, nfd, share):
+def _run(prop, name, tier, ops, dev, cb, nfd, share, alt=False):
     return dict(name=name, target="h_events", tiers=[tier], share=share,
-                args=["--prop", prop, "--ops", str(ops), "--dev", str(dev), "--cb", str(cb), "--nfd", str(nfd)])
+                args=["--prop", prop, "--ops", str(ops), "--dev", str(dev), "--cb", str(cb), "--nfd", str(nfd)] + (["--alt"] if alt else []))
 
 
 def events_check(prop):
@@ -22,18 +22,20 @@ def events_check(prop):
         runs=[
             _run(prop, "ops5-dev2-cb1", "quick", 5, 2, 1, 2, 0.2),
             _run(prop, "ops4-dev2-cb2", "quick", 4, 2, 2, 2, 0.3),
-            _run(prop, "ops5-dev1-cb2", "quick", 5, 1, 2, 2, 0.9),
+            _run(prop, "ops5-dev1-cb2", "quick", 5, 1, 2, 2, 0.8),
+            _run(prop, "ops5-dev2-cb1-alt", "quick", 5, 2, 1, 2, 0.95, alt=True),
             _run(prop, "ops6-dev2-cb2", "thorough", 6, 2, 2, 2, 0.35),
             _run(prop, "ops5-dev2-cb2-3fd", "thorough", 5, 2, 2, 3, 0.45),
             _run(prop, "ops7-dev2-cb1", "thorough", 7, 2, 1, 2, 0.4),
             _run(prop, "ops5-dev3-cb2", "thorough", 5, 3, 2, 2, 0.6),
-            _run(prop, "ops4-dev2-cb3", "thorough", 4, 2, 3, 2, 0.95),
+            _run(prop, "ops4-dev2-cb3", "thorough", 4, 2, 3, 2, 0.9),
+            _run(prop, "ops5-dev2-cb2-alt", "thorough", 5, 2, 2, 2, 0.97, alt=True),
         ],
-        deadline=dict(quick=150, thorough=2400),
-        bounds=dict(quick="union of three exhaustive explorations with 2 descriptors: (<=5 main-context operations, <=2 deviations, <=1 callback action), (<=4, <=2, <=2), (<=5, <=1, <=2)",
-                    thorough="union of five exhaustive explorations: (<=6 ops, <=2 deviations, <=2 callback actions, 2 descriptors), (5,2,2) with 3 descriptors, (7,2,1), (5,3,2), (4,2,3)"),
+        deadline=dict(quick=200, thorough=3000),
+        bounds=dict(quick="union of four exhaustive explorations with 2 descriptors: (<=5 main-context operations, <=2 deviations, <=1 callback action), (<=4, <=2, <=2), (<=5, <=1, <=2), and (5,2,1) with the alternative timer alphabet (events_timer_register_double; 30-day timer beyond INT_MAX ms)",
+                    thorough="union of six exhaustive explorations: (<=6 ops, <=2 deviations, <=2 callback actions, 2 descriptors), (5,2,2) with 3 descriptors, (7,2,1), (5,3,2), (4,2,3), and (5,2,2) with the alternative timer alphabet"),
         assumptions=["poll(2), clock_gettime(2) replaced by the harness (link-time interposition)",
-                     "<=3 immediates, <=3 descriptors x 2 directions, <=2 timers live at once; timeouts {0, 1.5 ms, 3 ms, 1 h}; clock starts 2 ms before a second boundary"],
+                     "<=3 immediates, <=3 descriptors x 2 directions, <=2 timers live at once; timeouts {0, 1.5 ms, 3 ms, 1 h}, in the -alt runs {0, 2^-9 s, 2^-8 s, 30 days} registered as doubles; clock starts 2 ms before a second boundary"],
     )
 
 
